@@ -255,7 +255,12 @@ def audit_case(ctx, rng, c, pinned=None):
                           {'stream': 'audit', 'form': form, 'case': c})
     if all(k in vals and vals[k][0] == 'solved' for k in ('primal', 'dual')):
         vp, vd = vals['primal'][1], vals['dual'][1]
-        if vp > vd + 1e-5 * max(1.0, abs(vd)) and not (math.isinf(vp) and math.isinf(vd)):
+        rows_ = [[F(x) for x in r] for r in c['f']['alpha']]
+        near = any(max(abs(a_ - b_) for a_, b_ in zip(r1, r2)) < F(1, 1000) for i, r1 in enumerate(rows_) for r2 in rows_[i + 1:])
+        if vp > vd + 1e-5 * max(1.0, abs(vd)) and not (math.isinf(vp) and math.isinf(vd)) and near:
+            # (two exponents of f closer than 1e-3: the dual is too badly conditioned for its value to be compared, see DESIGN 8.4 / C03)
+            ctx.incon('audit: primal above dual on an instance with near-duplicate exponents (left to the conditioning of the dual)')
+        elif vp > vd + 1e-5 * max(1.0, abs(vd)) and not (math.isinf(vp) and math.isinf(vd)):
             ctx.violation('weak duality: primal value %.8g exceeds dual value %.8g' % (vp, vd), {'stream': 'audit', 'case': c})
 
 
